@@ -282,6 +282,8 @@ def splice_function(u, spec, mode, canary=False, variants=(), rename=None):
         job["nth"] = spec.nth
     if mode == "use":
         job["rules"] = []
+    elif "R9" not in job["rules"]:
+        job["rules"] = list(job["rules"]) + ["R9"]      # assert!/debug_assert! are obligations in every proved function
     r = run_vx(job)
     if mode == "use":
         check_frozen(spec, r["orig"])
@@ -462,11 +464,65 @@ def build_unit(name, canary=False):
     tpl_path = os.path.join(VERIF, "units", name + ".rs")
     u = Unit(name)
     _expand(u, tpl_path, canary)
+    auto = _auto_consts(u)
     for i, (l, o) in enumerate(u.lines):
         if l == "//@@BROADCAST@@":
             stmt = "broadcast use {%s};" % ", ".join(u.broadcasts) if u.broadcasts else ""
             u.lines[i] = (stmt, o)
+            # module-level constants of the repository that a proved function refers to and the template does not
+            # define (a literal replaced by a named constant): taken over verbatim, their value is what the proof sees
+            for k, (txt, origin) in enumerate(auto):
+                u.lines.insert(i + 1 + k, (txt, origin))
+            if auto:
+                # everything below moved down by len(auto) lines (line numbers are 1-based; the marker is line i+1)
+                n = len(auto)
+                u.labels = {(ln + n if ln > i + 1 else ln): lab for ln, lab in u.labels.items()}
+                for f in u.functions:
+                    a, b = f["gen_lines"]
+                    if a > i + 1:
+                        f["gen_lines"] = [a + n, b + n]
+            break
     return u
+
+
+_CONST_USE = re.compile(r"(?<![:\w])([A-Z][A-Z0-9_]{2,})\b(?!\s*(?:::|\(|!))")
+
+
+def _auto_consts(u):
+    text = "\n".join(l for l, _ in u.lines)
+    out = []
+    seen = set()
+    for f in u.functions:
+        if f.get("mode") != "prove":
+            continue
+        txt = f.get("rewritten", "")
+        names = set()
+        for m in _CONST_USE.finditer(txt):
+            b = m.start(1)
+            if b >= 1 and txt[b - 1] == "." and not (b >= 2 and txt[b - 2] == "."):
+                continue        # a field / method, not `..CONST`
+            names.add(m.group(1))
+        for name in names:
+            if name in seen or re.search(r"\b(const|static|fn|struct|enum|type)\s+%s\b" % re.escape(name), text):
+                continue
+            seen.add(name)
+            src = os.path.join(REPO, f["file"])
+            try:
+                body = open(src).read()
+            except OSError:
+                continue
+            cut = body.find("#[cfg(test)]\nmod ")
+            if cut >= 0:
+                body = body[:cut]
+            if not re.search(r"^\s*(pub(\([a-z]+\))?\s+)?const\s+%s\s*:" % re.escape(name), body, re.M):
+                continue
+            try:
+                r = run_vx({"file": src, "selector": "const " + name, "rules": [], "substs": []})
+            except Exception:
+                continue
+            for l in r["text"].split("\n"):
+                out.append((l, ("repo", f["file"], None)))
+    return out
 
 
 def _expand(u, path, canary):
